@@ -150,4 +150,22 @@ theorem nodup_map_inj {α β} (f : α → β) (l : List α) (h : (l.map f).Nodup
       | head => exact absurd (List.mem_map.mpr ⟨a, ha', hab⟩) h'.1
       | tail _ hb' => exact ih h'.2 ha' hb'
 
+/-- pigeonhole: a duplicate-free list whose elements all lie in `l₂` is no longer than `l₂` -/
+theorem List.Nodup.length_le_of_subset {α} [DecidableEq α] {l₁ l₂ : List α} (hnd : l₁.Nodup)
+    (hsub : ∀ x ∈ l₁, x ∈ l₂) : l₁.length ≤ l₂.length := by
+  induction l₁ generalizing l₂ with
+  | nil => simp
+  | cons a as ih =>
+    have hnd' := List.nodup_cons.mp hnd
+    have ha : a ∈ l₂ := hsub a List.mem_cons_self
+    have : as.length ≤ (l₂.erase a).length := by
+      apply ih hnd'.2
+      intro x hx
+      have hxa : x ≠ a := fun h => hnd'.1 (h ▸ hx)
+      exact (List.mem_erase_of_ne hxa).mpr (hsub x (List.mem_cons_of_mem _ hx))
+    rw [List.length_erase_of_mem ha] at this
+    have hpos : 0 < l₂.length := List.length_pos_of_mem ha
+    simp only [List.length_cons]
+    omega
+
 end Protobom
